@@ -41,10 +41,16 @@ type pipe struct {
 	rnd           *rand.Rand
 	readerWaiting bool
 	writers       int
+	// coalescing transport (raw-stream sessions): every Write is handed over
+	// whole (one message), a Read lingers and then returns everything pending
+	coalesce       bool
+	wrote, readPos int
+	ends           []int // end offset of every Write = of every message
+	coalescedReads int   // reads that returned bytes of more than one message
 }
 
-func newPipe(seed int64) *pipe {
-	p := &pipe{rnd: rand.New(rand.NewSource(seed))}
+func newPipe(seed int64, coalesce bool) *pipe {
+	p := &pipe{rnd: rand.New(rand.NewSource(seed)), coalesce: coalesce}
 	p.cond = sync.NewCond(&p.mu)
 	return p
 }
@@ -85,6 +91,21 @@ func yield(act int) {
 // second writer that is not excluded by the code under test WILL interleave.
 func (p *pipe) Write(b []byte) (int, error) {
 	p.mu.Lock()
+	if p.coalesce {
+		if p.closed {
+			p.mu.Unlock()
+			return 0, io.ErrClosedPipe
+		}
+		p.buf = append(p.buf, b...)
+		p.tap = append(p.tap, b...)
+		p.wrote += len(b)
+		p.ends = append(p.ends, p.wrote)
+		act := p.rnd.Intn(100)
+		p.cond.Broadcast()
+		p.mu.Unlock()
+		yield(act)
+		return len(b), nil
+	}
 	p.writers++
 	off := 0
 	for off < len(b) {
@@ -122,6 +143,26 @@ func (p *pipe) Read(b []byte) (int, error) {
 	if len(p.buf) == 0 {
 		p.mu.Unlock()
 		return 0, io.EOF
+	}
+	if p.coalesce {
+		// linger so that further messages pile up, then deliver all of them at once
+		for i := p.rnd.Intn(6); i > 0; i-- {
+			p.mu.Unlock()
+			runtime.Gosched()
+			p.mu.Lock()
+		}
+		n := len(p.buf)
+		if n > len(b) {
+			n = len(b)
+		}
+		copy(b, p.buf[:n])
+		p.buf = p.buf[n:]
+		if sort.SearchInts(p.ends, p.readPos+n) > sort.SearchInts(p.ends, p.readPos+1) {
+			p.coalescedReads++
+		}
+		p.readPos += n
+		p.mu.Unlock()
+		return n, nil
 	}
 	n := p.piece(len(p.buf))
 	if n > len(b) {
@@ -169,6 +210,7 @@ type sessSpec struct {
 	Notifiers int   `json:"notifiers"`
 	NotifM    int   `json:"notif_m"`
 	Big       bool  `json:"big"` // some payloads of ~100 KB
+	Raw       bool  `json:"raw"` // NewRawStream over a coalescing transport instead of NewStream over the re-chunking one
 }
 
 type kv struct {
@@ -650,9 +692,14 @@ func runSession(spec sessSpec, wdMs int) *sessResult {
 	res := &sessResult{Idx: spec.Idx, Spec: spec, Stats: map[string]int{}}
 	s := &session{spec: spec, res: res, trig: map[string]func(){}, fired: map[string]bool{}, wdMs: wdMs}
 	base := runtime.NumGoroutine()
-	ab, ba := newPipe(spec.Seed*2+1), newPipe(spec.Seed*2+2)
+	ab, ba := newPipe(spec.Seed*2+1, spec.Raw), newPipe(spec.Seed*2+2, spec.Raw)
+	framer := jsonrpc2.NewStream
+	if spec.Raw {
+		framer = jsonrpc2.NewRawStream
+		s.stat("raw_sessions", 1)
+	}
 	mk := func(name string, rwc io.ReadWriteCloser, seed int64) *endpoint {
-		return &endpoint{s: s, name: name, conn: jsonrpc2.NewConn(jsonrpc2.NewStream(rwc)), rnd: rand.New(rand.NewSource(seed)),
+		return &endpoint{s: s, name: name, conn: jsonrpc2.NewConn(framer(rwc)), rnd: rand.New(rand.NewSource(seed)),
 			outstanding: map[int]bool{}, seenCall: map[string]int{}, notes: map[int][]int{}, replySent: map[string]bool{}, ids: map[string]string{}}
 	}
 	a := mk("A", &end{r: ba, w: ab}, spec.Seed+11)
@@ -791,22 +838,46 @@ func (s *session) finalChecks(a, b *endpoint, ab, ba *pipe) {
 		// wire tap
 		ab := x.p
 		ab.mu.Lock()
-		tap := ab.tap
+		tap, coalescedReads := ab.tap, ab.coalescedReads
 		ab.mu.Unlock()
-		frames, err := strictFrames(tap)
-		if err != nil {
-			s.violate("conc/tap-malformed-or-interleaved-frames", "%s->%s byte stream is not a sequence of whole frames: %v", x.from.name, to.name, err)
-			continue
+		// bodies on the wire: length-prefixed frames, or (raw stream) JSON values back to back
+		var bodies [][]byte
+		if s.spec.Raw {
+			s.stat("raw_coalesced_reads", coalescedReads)
+			dec := json.NewDecoder(bytes.NewReader(tap))
+			bad := false
+			for dec.More() {
+				var v json.RawMessage
+				if err := dec.Decode(&v); err != nil {
+					s.violate("conc/tap-raw-not-json-values", "%s->%s byte stream is not a sequence of JSON values: %v at byte %d", x.from.name, to.name, err, dec.InputOffset())
+					bad = true
+					break
+				}
+				bodies = append(bodies, v)
+			}
+			if bad {
+				continue
+			}
+		} else {
+			frames, err := strictFrames(tap)
+			if err != nil {
+				s.violate("conc/tap-malformed-or-interleaved-frames", "%s->%s byte stream is not a sequence of whole frames: %v", x.from.name, to.name, err)
+				continue
+			}
+			for _, f := range frames {
+				bodies = append(bodies, tap[f.BodyStart:f.End])
+			}
 		}
 		kinds := map[string]int{}
-		for _, f := range frames {
-			d, st := descOfBody(tap[f.BodyStart:f.End])
+		for _, body := range bodies {
+			d, st := descOfBody(body)
 			if st != bodyClean {
-				s.violate("conc/tap-not-a-message", "%s->%s frame body is not a JSON-RPC message: %s", x.from.name, to.name, clip(tap[f.BodyStart:f.End], 200))
+				s.violate("conc/tap-not-a-message", "%s->%s frame body is not a JSON-RPC message: %s", x.from.name, to.name, clip(body, 200))
 				continue
 			}
 			kinds[d.Kind]++
 		}
+		frames := bodies
 		s.stat("tap_frames", len(frames))
 		s.stat("tap_bytes", len(tap))
 		if kinds["call"] != calls || kinds["notify"] != notes || kinds["result"]+kinds["error"] != replies {
